@@ -1093,8 +1093,28 @@ class _Linalg(object):
     solve = staticmethod(solve)
 
 
+def _extremum(what):
+    def f(t, dim=None, keepdim=False):
+        """an uninterpreted extremum over the last axis (its value is not used by the obligations of this domain)"""
+        if dim not in (-1, len(t._shape) - 1):
+            raise OutOfSubset("LAM %s over another axis" % what)
+        c = ctx()
+        F = z3.Function(c.fresh(what), *([z3.IntSort()] * (len(t._shape) - 1) + [z3.RealSort()]))
+        G = z3.Function(c.fresh("arg" + what), *([z3.IntSort()] * (len(t._shape) - 1) + [z3.IntSort()]))
+        shp = tuple(t._shape[:-1]) + ((1,) if keepdim else ())
+        cut = (lambda ix: ix[:-1]) if keepdim else (lambda ix: ix)
+        return (LT(shp, lambda ix: F(*cut(ix)), "real"), LT(shp, lambda ix: G(*cut(ix)), "int"))
+    return f
+
+
+class _Namespace(types.SimpleNamespace):
+    def __getattr__(self, name):
+        raise OutOfSubset("LAM: torch.%s is not modelled" % name)
+
+
 def make_torch():
-    t = types.SimpleNamespace()
+    t = _Namespace()
+    t.min, t.max = _extremum("min"), _extremum("max")
     t.Tensor = LT
     t.numel, t.searchsorted, t.clamp, t.gather = numel, searchsorted, clamp, gather
     t.float64, t.int64 = float64, int64
